@@ -95,6 +95,9 @@ def strBytes (s : String) : Val := s.toUTF8.toList
 
 def bytesStr (v : Val) : String := (String.fromUTF8? (ByteArray.mk v.toArray)).getD ""
 
+/-- scripts travel as JSON strings -/
+def jsonStr (text : String) : Val := strBytes ("\"" ++ text ++ "\"")
+
 def unquote (s : String) : String :=
   let cs := s.toList
   if cs.length ≥ 2 && cs.head? == some '"' && cs.getLast? == some '"' then
@@ -127,7 +130,7 @@ def toMsg (syms : List (String × String)) (m : Sx) : Option Msg :=
   | some "exec" => do
     let c ← nth 1; let s ← nth 2; let f ← nth 3
     let funds ← parseCoins f.atom
-    pure (.wasmExecute (real c.atom) (strBytes s.print) funds)
+    pure (.wasmExecute (real c.atom) (jsonStr s.print) funds)
   | some "inst" => do
     let n ← nth 1; let s ← nth 2; let f ← nth 3; let lb ← nth 4; let ad ← nth 5; let sl ← nth 6
     let code ← n.atom.toNat?
@@ -135,11 +138,11 @@ def toMsg (syms : List (String × String)) (m : Sx) : Option Msg :=
     let label ← pdec lb.atom
     let admin := if ad.atom == "~" then none else some (real ad.atom)
     let salt ← if sl.atom == "~" then some none else (unhex sl.atom).map some
-    pure (.wasmInstantiate admin code (strBytes s.print) funds label salt)
+    pure (.wasmInstantiate admin code (jsonStr s.print) funds label salt)
   | some "mig" => do
     let c ← nth 1; let n ← nth 2; let s ← nth 3
     let code ← n.atom.toNat?
-    pure (.wasmMigrate (real c.atom) code (strBytes s.print))
+    pure (.wasmMigrate (real c.atom) code (jsonStr s.print))
   | some "upd" => do
     let c ← nth 1; let a ← nth 2
     pure (.wasmUpdateAdmin (real c.atom) (real a.atom))
@@ -315,6 +318,17 @@ def scripted (tag : String) : Code DExt where
       | _ => .err
     | none => .err
 
+/-- the same behaviour packaged through `ContractWrapper::new_with_empty`: lifting is the identity on
+every message kind except `Custom`, which the wrapper cannot lift (`unreachable!()`, a panic) -/
+def scriptedWrapped : Code DExt where
+  run := fun en env ch own =>
+    match (scripted "W").run en env ch own with
+    | (.ok (resp, own'), note) =>
+      if resp.msgs.any (fun sm => match sm.msg with | .ext .custom _ => true | _ => false) then (.panic, note)
+      else (.ok (resp, own'), note)
+    | other => other
+  query := (scripted "W").query
+
 def fmtTraceEntry (t : TraceEntry) : String :=
   let (tag, h, notes) := match t.note.splitOn "|" with
     | tag :: h :: rest => (tag, h, "|".intercalate rest)
@@ -401,7 +415,9 @@ def stepWasm (st : WState) (line : String) : WState × String :=
     let storeCode (id : Nat) (creator : String) (tag : String) : WState × String :=
       let chk := (st.chks.lookup id).getD []
       let cd : CodeData := { creator := creator, checksum := chk, sourceId := app.codeBase.length }
-      let app' : DApp := { app with codes := Registry.insert app.codes id cd, codeBase := app.codeBase ++ [scripted tag],
+      let code := if tag == "W!" then scriptedWrapped else scripted tag
+      let tag := if tag == "W!" then "W" else tag
+      let app' : DApp := { app with codes := Registry.insert app.codes id cd, codeBase := app.codeBase ++ [code],
                                      ch := { app.ch with ext := { app.ch.ext with
                                        tags := (id, tag) :: (id + 1000000, creator ++ "," ++ hex chk) :: app.ch.ext.tags } } }
       (setApp st app', "id " ++ toString id)
@@ -426,6 +442,11 @@ def stepWasm (st : WState) (line : String) : WState × String :=
     | "store" =>
       match Registry.storeCode ⟨app.codes, app.codeBase.length⟩ (real "creator") (fun id => (st.chks.lookup id).getD []) with
       | .ok (id, _) => storeCode id (real "creator") (a 1)
+      | .panic => (st, "panic")
+      | _ => (st, "err")
+    | "store-w" =>
+      match Registry.storeCode ⟨app.codes, app.codeBase.length⟩ (real "creator") (fun id => (st.chks.lookup id).getD []) with
+      | .ok (id, _) => storeCode id (real "creator") "W!"
       | .panic => (st, "panic")
       | _ => (st, "err")
     | "store-as" =>
@@ -487,7 +508,7 @@ def stepWasm (st : WState) (line : String) : WState × String :=
       | none => (st, "bad-op")
     | "sudo-wasm" =>
       let text := (items[2]?.map Sx.print).getD ""
-      let (r, ch', tr) := App.sudo cfg app.block fuelMax app.ch (.wasm (real (a 1)) (strBytes text))
+      let (r, ch', tr) := App.sudo cfg app.block fuelMax app.ch (.wasm (real (a 1)) (jsonStr text))
       (setApp st (addTrace { app with ch := ch' } tr), outcomeStr r fun r => "ok " ++ fmtResp r)
     | "wasm-sudo" =>
       let text := (items[2]?.map Sx.print).getD ""
